@@ -157,7 +157,21 @@ func hangClass(dump string) (sig string) {
 		return "channels-closed"
 	}
 	sendUnderLock, apiBlocked, readerInRead, readerExists, senderParked := false, false, false, false, false
+	lockWaiters, lockHolders := 0, 0
 	for _, g := range core.Goroutines(dump) {
+		if strings.Contains(g, "github.com/fsnotify/fsnotify.") {
+			inCS := false
+			for _, fn := range []string{"(*inotify).handleEvent", "(*inotify).AddWith", "(*inotify).Remove", "(*inotify).remove", "(*inotify).WatchList", "(*inotify).register", "(*shared).close", "(*watches)."} {
+				if strings.Contains(g, fn) {
+					inCS = true
+				}
+			}
+			if strings.Contains(g, "sync.(*Mutex).Lock") || strings.Contains(g, "sync.(*Mutex).lockSlow") {
+				lockWaiters++
+			} else if inCS {
+				lockHolders++
+			}
+		}
 		inSend := strings.Contains(g, "(*shared).sendError") || strings.Contains(g, "(*shared).sendEvent")
 		if strings.Contains(g, ".readEvents") {
 			readerExists = true
@@ -177,6 +191,10 @@ func hangClass(dump string) (sig string) {
 		}
 	}
 	switch {
+	case lockWaiters > 0 && lockHolders == 0 && !sendUnderLock:
+		// goroutines wait for the Watcher's lock and no goroutine is inside any function that
+		// holds it: the lock was never released by a path that already returned
+		return "lock-leaked"
 	case sendUnderLock:
 		if apiBlocked {
 			return "deadlock:send-under-lock+api-blocked"
